@@ -16,6 +16,8 @@ import (
 	"sort"
 	"strings"
 
+	intdataplane "github.com/projectcalico/calico/felix/dataplane/linux"
+	"github.com/projectcalico/calico/felix/proto"
 	"github.com/projectcalico/calico/lib/datastructures/hashring"
 )
 
@@ -152,6 +154,10 @@ func main() {
 	for ci := 0; ci < *n; ci++ {
 		if ci%50 == 3 {
 			largeCase(r, real, enc)
+			continue
+		}
+		if ci%50 == 13 || ci%50 == 38 {
+			nodesCase(r, real, enc)
 			continue
 		}
 		var h hashring.Hash
@@ -309,7 +315,7 @@ func main() {
 		for i, k := range tk {
 			te[i] = fmt.Sprintf("(%s, %d%%N)", bs(k), tbl[k])
 		}
-		coq := fmt.Sprintf("Build_case %d%%nat %d%%nat [%s] [] [%s] [%s]",
+		coq := fmt.Sprintf("CRing (Build_case %d%%nat %d%%nat [%s] [] [%s] [%s])",
 			replicas, probes, strings.Join(te, "; "), wrap(ops), wrap(obs))
 		var tl []string
 		for t := range tags {
@@ -557,7 +563,7 @@ func largeCase(r *rng, real hashring.Hash, enc *json.Encoder) {
 	for i, k := range tk {
 		te[i] = fmt.Sprintf("(%s, %d%%N)", bs(k), tbl[k])
 	}
-	coq := fmt.Sprintf("Build_case 100%%nat 1%%nat [%s] [%s] [%s] [%s]", strings.Join(te, "; "), strings.Join(ge, "; "), wrap(ops), wrap(obs))
+	coq := fmt.Sprintf("CRing (Build_case 100%%nat 1%%nat [%s] [%s] [%s] [%s])", strings.Join(te, "; "), strings.Join(ge, "; "), wrap(ops), wrap(obs))
 	var tl []string
 	for t := range tags {
 		tl = append(tl, t)
@@ -566,4 +572,190 @@ func largeCase(r *rng, real hashring.Hash, enc *json.Encoder) {
 	tl = append(tl, "replicas:100", "probes:1")
 	_ = enc.Encode(line{Coq: coq, NT: true, Key: fmt.Sprintf("%x", sha1.Sum([]byte(coq))),
 		Sample: map[string]any{"hash": htag, "replicas": 100, "probes": 1, "trace": sample}, Tags: tl})
+}
+
+// nodesCase: several real proxy-neighbour managers (felix/dataplane/linux/proxy_neigh_mgr.go), one per
+// cluster node, each fed its own ordering of the same per-host HostMetadataUpdate/Remove streams (plus
+// idempotent repeats and remove+re-add noise, selectNodeForIP and CompleteDeferredWork calls in between);
+// at the end every node is asked, for a list of LoadBalancer addresses, whether it owns the address.
+func nodesCase(r *rng, real hashring.Hash, enc *json.Encoder) {
+	type ev struct {
+		upd        bool
+		host       string
+		a4, a6     string
+		coq, human string
+	}
+	tags := map[string]bool{"nodes-case": true}
+	nh := 3 + r.intn(4)
+	hosts := make([]string, nh)
+	a4 := map[string]string{}
+	a6 := map[string]string{}
+	for i := range hosts {
+		hosts[i] = fmt.Sprintf("node-%c", 'a'+i)
+		a4[hosts[i]] = fmt.Sprintf("10.0.0.%d", i+1)
+		a6[hosts[i]] = fmt.Sprintf("fd00::%d", i+1)
+		switch r.intn(8) {
+		case 0:
+			a4[hosts[i]] = ""
+			tags["host-without-v4-address"] = true
+		case 1:
+			a6[hosts[i]] = ""
+			tags["host-without-v6-address"] = true
+		}
+	}
+	mkUpd := func(h string) ev {
+		return ev{upd: true, host: h, a4: a4[h], a6: a6[h],
+			coq:   fmt.Sprintf("NMsg (HUpdate %s %s %s)", bs(h), bs(a4[h]), bs(a6[h])),
+			human: fmt.Sprintf("HostMetadataUpdate(%s,%q,%q)", h, a4[h], a6[h])}
+	}
+	mkRem := func(h string) ev {
+		return ev{host: h, coq: fmt.Sprintf("NMsg (HRemove %s)", bs(h)), human: fmt.Sprintf("HostMetadataRemove(%s)", h)}
+	}
+	// the cluster's history, per host: update, then possibly remove / re-add
+	per := map[string][]ev{}
+	for _, h := range hosts {
+		seq := []ev{mkUpd(h)}
+		for r.intn(3) == 0 {
+			seq = append(seq, mkRem(h))
+			if r.intn(3) != 0 {
+				seq = append(seq, mkUpd(h))
+			}
+		}
+		per[h] = seq
+	}
+	nips := 6 + r.intn(5)
+	ips := make([]string, nips)
+	for i := range ips {
+		ips[i] = fmt.Sprintf("192.168.%d.%d", r.intn(4), r.intn(256))
+		if r.intn(5) == 0 {
+			ips[i] = fmt.Sprintf("fd10::%x", r.intn(4096))
+		}
+	}
+	v6 := r.intn(4) == 0
+	if v6 {
+		tags["family:v6"] = true
+	}
+	nodeNames := append([]string{}, hosts...)
+	if r.intn(4) == 0 {
+		nodeNames = append(nodeNames, "outsider")
+		tags["node-not-in-member-set"] = true
+	}
+	used := map[string]bool{}
+	var nodes []string
+	var human []string
+	for _, name := range nodeNames {
+		ver := uint8(4)
+		nv6 := v6
+		if r.intn(10) == 0 {
+			nv6 = !v6
+			tags["mixed-families"] = true
+		}
+		if nv6 {
+			ver = 6
+		}
+		nd := intdataplane.VerifC45NewNode(name, ver)
+		idx := map[string]int{}
+		remaining := 0
+		for _, h := range hosts {
+			remaining += len(per[h])
+		}
+		miss := r.intn(6) == 0 // this node has not yet received the last event of one host
+		if miss {
+			tags["node-missed-last-event"] = true
+		}
+		var ops, obs, trace []string
+		send := func(e ev) {
+			if e.upd {
+				nd.OnUpdate(&proto.HostMetadataUpdate{Hostname: e.host, Ipv4Addr: e.a4, Ipv6Addr: e.a6})
+			} else {
+				nd.OnUpdate(&proto.HostMetadataRemove{Hostname: e.host})
+			}
+			used[e.host] = true
+			ops = append(ops, e.coq)
+			obs = append(obs, fmt.Sprintf("NODirty %v", nd.Dirty()))
+			trace = append(trace, fmt.Sprintf("%s dirty=%v", e.human, nd.Dirty()))
+		}
+		for remaining > 0 {
+			h := hosts[r.intn(len(hosts))]
+			if idx[h] >= len(per[h]) {
+				continue
+			}
+			e := per[h][idx[h]]
+			idx[h]++
+			remaining--
+			if miss && remaining == 0 {
+				break
+			}
+			send(e)
+			switch r.intn(8) {
+			case 0: // idempotent repeat
+				send(e)
+				tags["repeat-message"] = true
+			case 1: // flap: the opposite and back again
+				if e.upd {
+					send(mkRem(e.host))
+					send(e)
+				} else {
+					send(mkUpd(e.host))
+					send(e)
+				}
+				tags["flap"] = true
+			case 2:
+				ip := ips[r.intn(len(ips))]
+				b := nd.Select(ip)
+				ops = append(ops, fmt.Sprintf("NSelect %s", bs(ip)))
+				obs = append(obs, fmt.Sprintf("NOSel %v", b))
+				trace = append(trace, fmt.Sprintf("selectNodeForIP(%s)=%v", ip, b))
+			case 3:
+				_ = nd.Complete()
+				ops = append(ops, "NComplete")
+				obs = append(obs, fmt.Sprintf("NODirty %v", nd.Dirty()))
+				trace = append(trace, fmt.Sprintf("CompleteDeferredWork dirty=%v", nd.Dirty()))
+			}
+		}
+		var fin, owned []string
+		for _, ip := range ips {
+			b := nd.Select(ip)
+			fin = append(fin, fmt.Sprintf("%v", b))
+			if b {
+				owned = append(owned, ip)
+			}
+		}
+		nd.Stop()
+		nodes = append(nodes, fmt.Sprintf("Build_node %v %s [%s] [%s] [%s]", nv6, bs(name), wrap(ops), wrap(obs), strings.Join(fin, ";")))
+		human = append(human, fmt.Sprintf("%s (v%d): %s => owns %v", name, ver, strings.Join(trace, ", "), owned))
+	}
+	var ge []string
+	grp := func(name string, k int) {
+		hs := make([]string, k)
+		for i := range hs {
+			hs[i] = fmt.Sprintf("%d", real(salt(name, i)))
+		}
+		ge = append(ge, fmt.Sprintf("(%s, [%s]%%N)", bs(name), strings.Join(hs, ";")))
+	}
+	for _, h := range hosts {
+		if used[h] {
+			grp(h, 100)
+		}
+	}
+	seen := map[string]bool{}
+	for _, ip := range ips {
+		if !seen[ip] {
+			seen[ip] = true
+			grp(ip, 1)
+		}
+	}
+	ipl := make([]string, len(ips))
+	for i, ip := range ips {
+		ipl[i] = bs(ip)
+	}
+	coq := fmt.Sprintf("CNodes (Build_ncase [%s] [%s] [%s])", strings.Join(ge, "; "), strings.Join(ipl, "; "), wrap(nodes))
+	var tl []string
+	for t := range tags {
+		tl = append(tl, t)
+	}
+	sort.Strings(tl)
+	tl = append(tl, fmt.Sprintf("nodes:%d", len(nodeNames)))
+	_ = enc.Encode(line{Coq: coq, NT: len(hosts) >= 2, Key: fmt.Sprintf("%x", sha1.Sum([]byte(coq))),
+		Sample: map[string]any{"kind": "nodes", "ips": ips, "nodes": human}, Tags: tl})
 }
